@@ -13,9 +13,18 @@ for f in sorted(glob.glob(os.path.join(VERIF, "seeded", "*", "meta.json"))):
     tiers = "; ".join("%s exit %s (%ss)" % (p, r["exit"], r["seconds"]) for p, r in m.get("checks", {}).items())
     rows.append("| %s | %s | %s | %s |" % (m["seed"], (first[0] if first else "")[:150].replace("|", "/"), caught, tiers))
 table = "| seed | change (first line of the author's notes) | caught by | runs |\n|---|---|---|---|\n" + "\n".join(rows)
+brows = []
+for f in sorted(glob.glob(os.path.join(VERIF, "seeded", "benign", "*", "meta.json"))):
+    m = json.load(open(f))
+    first = (m.get("notes") or "").strip().splitlines()[0:1]
+    res = "; ".join("%s exit %s" % (p, r["exit"]) for p, r in m.get("checks", {}).items())
+    verdict = "ok" if not m.get("alarms") and not m.get("inconclusive") else \
+        ("ALARM " + ",".join(m.get("alarms", [])) if m.get("alarms") else "inconclusive " + ",".join(m.get("inconclusive", [])))
+    brows.append("| %s | %s | %s | %s |" % (m["refactoring"], (first[0] if first else "")[:140].replace("|", "/"), verdict, res))
+table += "\n\n| refactoring | what was restructured (first line of the author's notes) | verdict | runs |\n|---|---|---|---|\n" + "\n".join(brows)
 p = os.path.join(VERIF, "DESIGN.md")
 s = open(p).read()
 s = re.sub(r"<!-- SEED-TABLE-BEGIN -->.*<!-- SEED-TABLE-END -->",
-           "<!-- SEED-TABLE-BEGIN -->\n" + table + "\n<!-- SEED-TABLE-END -->", s, flags=re.S)
+           lambda m: "<!-- SEED-TABLE-BEGIN -->\n" + table + "\n<!-- SEED-TABLE-END -->", s, flags=re.S)
 open(p, "w").write(s)
 print(len(rows), "seeds")
